@@ -179,7 +179,7 @@ impl Scenario for C02S {
         "C02"
     }
     fn variants(&self) -> &'static [&'static str] {
-        &["os", "memfd", "inproc"]
+        &["os", "memfd", "inproc", "hook"]
     }
     fn count(&self, tier: Tier, variant: &str) -> u64 {
         match (tier, variant) {
